@@ -272,7 +272,7 @@ impl SeqSpec for Seq {
 pub fn run(rep: &mut Report) {
     let deep = !rep.quick();
     let q = false; // the former thorough parameters are cheap enough for the quick tier
-    let dl = lattice::dl(if deep { 256 } else { 64 }, !q);
+    let dl = lattice::dl(if deep { 1024 } else { 64 }, !q);
     let dl_pairs = if q { lattice::dl(4, false) } else { dl.clone() };
     let kl = lattice::kl();
     rep.bound("DL_size", dl.len() as u64);
